@@ -86,12 +86,31 @@ step: (1) every other object of the session shows exactly what it showed before;
 expressions shows what the same expression gave at the start of the session, also after loading the session's probe definition (same names as the
 objects use, lookup included) through the session's entry point; at the end (3) every object shows what it shows in a universe that executed only
 its own lines, and (4) a new cstruct() after all sessions equals the one before the first.
+
+Object identity of mutable members (harness/v10_c14.py): the value-based families above cannot see two instances that hold the very same list /
+nested structure object as long as nobody writes to it.  One cstruct object (every constructor / endianness spelling) receives a definition through
+load() (compiled / interpreted, aligned or not), loadfile(), the legacy parser or API construction (_make_struct / _make_union + add_type): an enum,
+nested structures and a nested union, the type under test T - a structure or a fixed-size UNION (half of the sessions) with scalars, bit fields, char
+blocks, enums, int arrays, 2-D arrays, arrays of enums / char blocks, nested structures, arrays of them, a nested union, an inline anonymous structure,
+a parse-time sized array - and the holders `struct W { uint8 pre; T m; T arr[2]; }`, `union WU { T m; uint8 raw[sizeof T]; }`.  2-5 sources give T
+instances (the object itself, W.m, W.arr[k], WU.m, elements of T[n]): parses through every entry point (X(bytes / bytearray / memoryview / BytesIO),
+X.read(stream / bytes), X.reads, cs.read(name, ...), a stream positioned behind a prefix, a real file object; X as cs.T / cs.resolve / cs.typedefs) of
+all-zero bytes (= the default value; half of the parses), random bytes or zero bytes with a random stretch, often the same bytes twice; default,
+keyword (scalars and freshly made containers; a union is rebuilt from the one member given) and positional construction; failing parses in between.
+Oracles: (1) no list / structure / union object (proxies unwrapped) is reachable from two distinct instances, nor from an instance and a LATER default
+construction T(); (2) after an in-place change of one instance through its public path (`i.a[k] = v`, `i.a[k][l] = v`, `i.n.p = v`, `i.n.q[k] = v`,
+`i.sa[k].p = v`, `i.u.b[k] = v`, `i.a[:] = [...]`, now and then `i.x = v`) every other instance (value by member, dumps, bytes), the dump of every
+other holder and a later default construction (against a new universe that only loaded the definition) are what they were; (3) every parsing source
+parsed again at the end through its own entry point shows the values of its first parse, one of them also in a new universe.  Known finding F8 is
+classified exactly where BOTH places were filled in by default construction (default-constructed instance / holder, a top-level member left out of
+a keyword or positional construction of a structure); everything that involves a parsed instance, a user-given value or a union rebuilt from keyword
+values is reported.  The case data is the session descriptor, `--replay` re-evaluates it.
 """
 from __future__ import annotations
 
 import io
 
-from .. import defs, impl, s6_c14, t4_c14, u3_c14, v4_c14, v5_c14, v6_c14, v8_c14, v9_c14
+from .. import defs, impl, s6_c14, t4_c14, u3_c14, v4_c14, v5_c14, v6_c14, v8_c14, v9_c14, v10_c14
 from ..common import Case, Result, mkrng
 from ..structprops import rand_bytes
 
@@ -143,6 +162,13 @@ def run(env) -> Result:
                 "pointer, consts, lookups, typedefs (names, targets, identities) and parse signature it showed before, a new object made after the step "
                 "shows (also after the session's probe load) what one made at the start of the session showed, and at the end every object equals itself "
                 "in a universe that executed only its own lines. "
+                "Object identity (v10_c14): T instances (structure or fixed-size union with arrays, 2-D arrays, nested structures / unions, anonymous "
+                "structures; load / loadfile / legacy parser / API construction; compiled or not, aligned or not, every endianness spelling) obtained "
+                "through every parse entry point (bytes, bytearray, memoryview, streams, real files, cs.read, T[n], members and array members of a holder "
+                "structure / union) from all-zero, random and mixed bytes, and through default / keyword / positional construction: no list or nested "
+                "structure object is shared between two distinct instances or with a later default construction (F8 only when both places are "
+                "default-filled); an in-place change of one instance leaves every other instance (value, dumps, bytes), every other holder's dump and "
+                "later default constructions unchanged; every source parsed again at the end, and in a new universe, gives the values of its first parse. "
                 "distinct = (history prefix); non-trivial = history of >= 3 operations")
     dc = impl.dc()
     rnd = mkrng(env["seed"], "c14")
@@ -300,6 +326,8 @@ def run(env) -> Result:
         v9_c14.run(env, res, viol, mkrng(env["seed"], "c14:v9"), 28)
     else:
         v9_c14.run(env, res, viol, mkrng(env["seed"], "c14:v9"), 500, steps=(6, 16))
+    # object identity of mutable members: no list / nested structure object is shared between two instances (however obtained) or with a later default
+    v10_c14.run(env, res, viol, mkrng(env["seed"], "c14:v10"), 250 if tier == "quick" else 6000)
     res.sample({"history_example": "construct@cs0, inplace-array@cs0/inst0, construct@cs0, endian@cs1, parse@cs1, ..."})
     return res
 
@@ -318,6 +346,9 @@ def replay(body) -> int:
     if str(case.get("family", "")).startswith("v8:"):
         print("replay:", body.get("what"))
         return v8_c14.replay(case)
+    if str(case.get("family", "")).startswith("v10:"):
+        print("replay:", body.get("what"))
+        return v10_c14.replay(case)
     if str(case.get("family", "")).startswith("v9:"):
         print("replay:", body.get("what"))
         return v9_c14.replay(case)
